@@ -53,13 +53,14 @@ theorem collect_den {m : IM σ α} {cost : σ → Nat} {s : σ} {L : List (α ×
   exact this
 
 /-- consumer-level `Next` on a denoting state: either the end (and the list is empty) or the head,
-leaving a state that denotes the tail -/
+leaving a state that denotes the tail; the cost afterwards is the annotation -/
 theorem drive_den {m : IM σ α} {cost : σ → Nat} {s : σ} {L : List (α × Nat)} {e : Nat}
     (h : Den m cost s L e) :
     ∃ F, ∀ fuel, F ≤ fuel →
       match L with
-      | [] => (drive m fuel s).1 = some none ∧ Ended m (drive m fuel s).2
-      | p :: L' => (drive m fuel s).1 = some (some p.1) ∧ Den m cost (drive m fuel s).2 L' e := by
+      | [] => (drive m fuel s).1 = some none ∧ Ended m (drive m fuel s).2 ∧ cost (drive m fuel s).2 = e
+      | p :: L' => (drive m fuel s).1 = some (some p.1) ∧ Den m cost (drive m fuel s).2 L' e ∧
+          cost (drive m fuel s).2 = p.2 := by
   induction h with
   | @skip s s' L e hs _ ih =>
     obtain ⟨F, hF⟩ := ih
@@ -71,12 +72,12 @@ theorem drive_den {m : IM σ α} {cost : σ → Nat} {s : σ} {L : List (α × N
     refine ⟨1, fun fuel hf => ?_⟩
     obtain ⟨g, rfl⟩ : ∃ g, fuel = g + 1 := ⟨fuel - 1, by omega⟩
     rw [drive_succ, hs]
-    exact ⟨rfl, h'⟩
+    exact ⟨rfl, h', rfl⟩
   | done hs he _ =>
     refine ⟨1, fun fuel hf => ?_⟩
     obtain ⟨g, rfl⟩ : ∃ g, fuel = g + 1 := ⟨fuel - 1, by omega⟩
     rw [drive_succ, hs]
-    exact ⟨rfl, he⟩
+    exact ⟨rfl, he, rfl⟩
 
 theorem drive_ended {m : IM σ α} {s : σ} (he : Ended m s) (fuel : Nat) (hf : 1 ≤ fuel) :
     (drive m fuel s).1 = some none ∧ Ended m (drive m fuel s).2 := by
@@ -109,7 +110,7 @@ theorem one_den {m : IM σ α} {cost : σ → Nat} {s : σ} {L : List (α × Nat
       intro fuel hf
       have := (h1 fuel hf)
       simp only at this
-      obtain ⟨F2, h2⟩ := drive_den this.2
+      obtain ⟨F2, h2⟩ := drive_den this.2.1
       refine ⟨F2, fun fuel2 hf2 => ?_⟩
       have := h2 fuel2 hf2
       cases L' with
